@@ -21,8 +21,9 @@ structure View where
   out : List Out
   transport : Bool
   listeners : List (Nat × Nat)
+  gen : Nat                      -- connections opened so far (0: the first connection)
 
-def view (st : St) : View := ⟨st.reqs.map core, st.out, st.transport, st.listeners⟩
+def view (st : St) : View := ⟨st.reqs.map core, st.out, st.transport, st.listeners, st.gen⟩
 
 def View.upd (v : View) (i : Nat) (g : Core → Core) : View :=
   { v with cores := v.cores.map fun c => if (c.id == i) = true then g c else c }
@@ -297,9 +298,9 @@ def pre (st0 : St) (e : Ev) : St × Bool :=
                listeners := st.listeners ++ [(id, key)], ready := st.ready ++ [id] }, true)
   | .rxAck k =>
     if k = st.pack then
-      let woken := (st.reqs.filter (·.phase == .waitAck)).map (·.id)
+      let woken := (st.reqs.filter fun r => r.phase == .waitAck && r.gen == st.gen).map (·.id)
       ({ st with pack := st.pack % 3 + 1,
-                 reqs := st.reqs.map fun r => if r.phase == .waitAck then { r with phase := .acked } else r,
+                 reqs := st.reqs.map fun r => if r.phase == .waitAck && r.gen == st.gen then { r with phase := .acked } else r,
                  ready := st.ready ++ woken }, true)
     else (st, true)
   | .rxRsp key =>
@@ -338,6 +339,8 @@ def pre (st0 : St) (e : Ev) : St × Bool :=
     let st := { st with isOpen := false }
     ((if st.resetting then st else emit st .appLost), true)
   | .setReset b => ({ st with resetting := b }, false)
+  | .connect =>
+    ((if st.isOpen then st else { st with isOpen := true, transport := true, pack := 0, gen := st.gen + 1 }), false)
 
 theorem step_eq_pre (st : St) (e : Ev) :
     step st e = cond (pre st e).2 (settleAll (pre st e).1) (pre st e).1 := by
@@ -368,5 +371,6 @@ theorem step_eq_pre (st : St) (e : Ev) :
   | close => simp only [step, pre]; split <;> rfl
   | lost => simp only [step, pre]; rfl
   | setReset b => rfl
+  | connect => simp only [step, pre]; split <;> rfl
 
 end Zboss.Host
